@@ -166,12 +166,18 @@ func c10Renderings(e *core.Env, r *core.Rand, idx int64, text string, api []obs.
 		}
 	}
 	f := writeFile(e.Dir, "bad.klg", text)
+	fileArgs := []string{f}
+	if idx%12 == 0 {
+		// a valid file in front of the invalid one: the report must still name the invalid file and ITS line numbers
+		fileArgs = []string{writeFile(e.Dir, "good.klg", "2020-01-01\nfine\n    1h\n\n2020-01-02\n    2h\n"), f}
+		e.Count("renderings_with_two_input_files", 1)
+	}
 	themes := []string{"no_colour"}
 	if idx%8 == 0 {
 		themes = []string{r.Pick("dark", "light", "basic")}
 	}
 	for _, th := range themes {
-		res := obs.RunCLI(obs.CLIEnv{ConfigDir: e.Dir + "/cfg", Cpus: r.PickInt(1, 1, 4), Theme: th, Clock: obs.ClockAt(ref.Date{Y: 2024, M: 3, D: 15}, 700, 0)}, "print", f)
+		res := obs.RunCLI(obs.CLIEnv{ConfigDir: e.Dir + "/cfg", Cpus: r.PickInt(1, 1, 4), Theme: th, Clock: obs.ClockAt(ref.Date{Y: 2024, M: 3, D: 15}, 700, 0)}, append([]string{"print"}, fileArgs...)...)
 		if res.Panic != nil {
 			e.Violation("terminal-report-panics: "+res.Panic.Site(), fmt.Sprintf("klog print (theme %s) panicked while reporting the errors: %s", th, res.Panic.Value), w)
 			continue
@@ -201,9 +207,9 @@ func c10Renderings(e *core.Env, r *core.Rand, idx int64, text string, api []obs.
 		e.Count("terminal_reports_checked", 1)
 	}
 	for _, pretty := range []bool{idx%16 == 0} {
-		args := []string{"json", f}
+		args := append([]string{"json"}, fileArgs...)
 		if pretty {
-			args = []string{"json", "--pretty", f}
+			args = append([]string{"json", "--pretty"}, fileArgs...)
 		}
 		res := obs.RunCLI(obs.CLIEnv{ConfigDir: e.Dir + "/cfg", Cpus: r.PickInt(1, 3), Clock: obs.ClockAt(ref.Date{Y: 2024, M: 3, D: 15}, 700, 0)}, args...)
 		if res.Panic != nil {
